@@ -16,9 +16,9 @@ PLANS = {
                 quick=[("rand", 300, ""), ("burst", 20, "ks=2+3+17+240+700"), ("paced", 40, ""), ("absorb", 24, ""), ("moves", 60, ""), ("lag", 100, ""), ("endwatch", 60, ""), ("heldparent", 40, ""), ("recerr", 40, ""), ("tlcev", 367, "k=3"), ("tlcev", 300, "k=4"), ("tlcevlag", 400, "k=3"), ("tlcevlag", 300, "k=4"), ("tlcevheldlag", 300, "k=4")],
                 thorough=[("rand", 5000, ""), ("burst", 200, "ks=2+3+17+240+2049+5000"), ("paced", 600, ""), ("absorb", 200, ""), ("moves", 1500, ""), ("lag", 2000, ""), ("endwatch", 1000, ""), ("heldparent", 600, ""), ("recerr", 400, ""), ("tlcev", 3000, "k=4"), ("tlcev", 8000, "k=5"), ("tlcevlag", 1500, "k=3"), ("tlcevlag", 8000, "k=4"), ("tlcevheld", 6000, "k=5"), ("tlcevheldlag", 7911, "k=4")]),
     "C04": dict(engine=INO, mc=["MC_WatchSet"],
-                quick=[("wsexh", 196, "k=2"), ("wsexh", 900, "k=3"), ("wsrand", 200, ""), ("repoint", 60, ""), ("tlcws", 600, "k=3"), ("tlcwslag", 334, "k=3"), ("tlcwslag", 400, "k=4"), ("lag", 150, ""), ("endwatch", 100, ""), ("wlpark", 40, ""), ("reops", 60, "")],
+                quick=[("wsexh", 196, "k=2"), ("wsexh", 900, "k=3"), ("wsrand", 200, ""), ("repoint", 60, ""), ("tlcws", 600, "k=3"), ("tlcwslag", 334, "k=3"), ("tlcwslag", 400, "k=4"), ("lag", 150, ""), ("endwatch", 100, ""), ("wlpark", 40, ""), ("reops", 60, ""), ("badarg", 8, "")],
                 thorough=[("wsexh", 196, "k=2"), ("wsexh", 2744, "k=3"), ("wsexh", 38416, "k=4"), ("wsrand", 6000, ""), ("repoint", 600, ""), ("tlcws", 100000, "k=4"), ("tlcwslag", 12000, "k=4"),
-                          ("lag", 3000, ""), ("endwatch", 2000, ""), ("wlpark", 400, ""), ("reops", 800, ""), ("ovfend", 3, "")]),
+                          ("lag", 3000, ""), ("endwatch", 2000, ""), ("wlpark", 400, ""), ("reops", 800, ""), ("ovfend", 3, ""), ("badarg", 40, "")]),
     "C05": dict(engine=INO, mc=["MC_Sched", "MC_SchedLive"], also_lin=True,
                 quick=[("lag", 300, ""), ("close", 100, ""), ("stall", 40, ""), ("ovfstall", 1, "mode=calls"), ("ovfstall", 1, "mode=close"), ("readfault", 40, ""), ("recerr", 40, "")],
                 thorough=[("lag", 5000, ""), ("close", 2000, ""), ("stall", 600, ""), ("ovfstall", 12, ""), ("readfault", 600, ""), ("recerr", 600, "")]),
